@@ -8,15 +8,27 @@ use num_traits::{sign::Signed, One, ToPrimitive, Zero};
 use serde_derive::{Deserialize, Serialize};
 use std::cmp::{self, Ord};
 use std::fmt;
+use std::hash::{Hash, Hasher};
 use std::ops::{Add, Div, Mul, Neg, Rem, Sub};
 
 use crate::output::Digits;
 
 use super::BigInt;
 
-#[derive(Clone, Debug, PartialEq, Eq, PartialOrd, Ord, Serialize, Deserialize, Hash)]
+#[derive(Clone, Debug, PartialEq, Eq, PartialOrd, Ord, Serialize, Deserialize)]
 pub struct BigRat {
     inner: NumRat,
+}
+
+// num-rational hashes a ratio by recursing once per step of Euclid's
+// algorithm, which overflows the stack for numbers with tens of thousands
+// of digits. Ratios are kept in lowest terms with a positive denominator,
+// so hashing the two parts agrees with Eq.
+impl Hash for BigRat {
+    fn hash<H: Hasher>(&self, state: &mut H) {
+        self.inner.numer().hash(state);
+        self.inner.denom().hash(state);
+    }
 }
 
 impl BigRat {
